@@ -75,6 +75,8 @@ def _ops(max_len):
         st.tuples(st.just("declare"), spec).map(list),
         st.tuples(st.just("declare"), spec).map(list),
         st.tuples(st.just("refine"), ref, refine_call).map(list),
+        st.tuples(st.just("refine"), ref, refine_call).map(list),
+        st.tuples(st.just("refine"), ref, refine_call).map(list),
         st.tuples(st.just("container"), st.just("schemas"), st.lists(ref, max_size=3)).map(list),
         st.tuples(st.just("container"), st.just("mapping"),
                   st.lists(st.tuples(st.sampled_from(["a", "b", "c", 1]), ref).map(list), max_size=3)).map(list),
@@ -452,9 +454,9 @@ def check(case, ctx):
                 w.log.append((thunk, fp, step, dep))
                 # ---- the same operation on equal inputs in a process without history ---------------
                 if name in ("from-native", "substitute", "validate", "add", "or", "represent",
-                            "make-required", "eq") and not pristine_budget[0] <= 0:
+                            "make-required", "eq", "invert") and not pristine_budget[0] <= 0:
                     ins = {"from-native": [], "substitute": [s], "validate": [s], "represent": [s],
-                           "make-required": [s]}.get(name)
+                           "make-required": [s], "invert": [s]}.get(name)
                     if ins is None:
                         ins = [a, b]
                     sps = [_as_spec(x) for x in ins]
@@ -462,7 +464,8 @@ def check(case, ctx):
                     if all(sp is not None for sp in sps) and (val is None or _encodable(val)):
                         pristine_budget[0] -= 1
                         resp = _pristine({"op": name, "schemas": sps, "value": val,
-                                          "has_value": val is not None})
+                                          "has_value": val is not None,
+                                          "extra": op[2] if name == "invert" else None})
                         if "fp" in resp:
                             mine = _portable_fp(fp, out)
                             if resp["fp"] != mine:
@@ -526,9 +529,16 @@ def _encodable(v):
 
 
 def _volatile(s):
+    """not to be generated from in a history: draws from the OS / clock, or declares a huge length
+    (schema.list.len(2**63) is declarable; generating from it would never end)"""
     try:
-        return any(x["t"] in ("uuid4", "datetime", "date") and "value" not in x
-                   for x, _ in specs.walk(canon.spec_of(s)))
+        for x, _ in specs.walk(canon.spec_of(s)):
+            if x["t"] in ("uuid4", "datetime", "date") and "value" not in x:
+                return True
+            lf = x.get("len")
+            if lf and any(isinstance(n, int) and n > 64 for n in lf[1:]):
+                return True
+        return False
     except ValueError:
         return True
 
